@@ -77,9 +77,9 @@ func clientCerts(cli string) cliCerts {
 		return cliCerts{sig: s.CliOthSig, enc: s.CliOthEnc}
 	case "expired":
 		return cliCerts{sig: s.CliExpSig, enc: s.CliExpEnc}
-	case "eku": // serverAuth only
+	case "eku": // serverAuth only: inside the documented usage set, must be ACCEPTED
 		return cliCerts{sig: s.CliEKUSig, enc: s.CliEKUEnc}
-	case "ekucode": // codeSigning only
+	case "ekucode": // codeSigning only: the "wrong extended key usage" of the property
 		return cliCerts{sig: x.CodeSig, enc: x.CodeEnc}
 	case "noeku":
 		return cliCerts{sig: x.NoEKUSig, enc: x.NoEKUEnc}
@@ -417,7 +417,7 @@ type connObs struct {
 	err            error
 	resumed        bool
 	peers, chains  int
-	req            bool
+	req            string // "-": the server never sent a full-handshake flight
 	alert          string
 	cliErr         error
 	panicked       string
@@ -442,7 +442,7 @@ func (o connObs) tokens(k string) string {
 		w("peers", "-")
 		w("chains", "-")
 	}
-	w("req", b01(o.req))
+	w("req", o.req)
 	w("cls", errClass(o.err))
 	w("alert", o.alert)
 	if o.cliErr == nil {
@@ -451,6 +451,14 @@ func (o connObs) tokens(k string) string {
 		w("cli", "err")
 	}
 	return sb.String()
+}
+
+// reqTok: was a CertificateRequest part of the server's full-handshake flight?
+func reqTok(f flight) string {
+	if !f.has(11) {
+		return "-"
+	}
+	return b01(f.has(13))
 }
 
 func alertTok(f flight) string {
